@@ -120,6 +120,10 @@ def gen_cases(ctx) -> List[Dict[str, Any]]:
         for e in ("normal", "cancel", "fail_after"):
             for attempt in range(6 if ctx.tier == "quick" else 30):
                 cases.append({"behaviour": f"flood_noline:{size}", "exit": e, "moment": "before_first", "idle": 0.1, "attempt": attempt})
+    # lines that are huge JSON arrays of non-messages: the walk through one line must not hold the exit up
+    for n in ((300_000,) if ctx.tier == "quick" else (300_000, 2_000_000)):
+        for e in ("normal", "cancel", "fail_after"):
+            cases.append({"behaviour": f"junk_batch:{n}", "exit": e, "moment": "before_first", "idle": 0.3})
     # an idle application: the child has sent a finite backlog (progress of a request given up long ago, then one message
     # that carries an id) which nobody reads, and then the context is left
     for n in ((99, 100, 130) if ctx.tier == "quick" else (50, 99, 100, 101, 130, 400)):
